@@ -50,8 +50,10 @@ Definition glob1 (s : state) : bool :=
 (* evidence that the session is ending *)
 Definition left_loop (r : rpc) : Prop := r = RDoneSend \/ r = RExited \/ r = RRet.
 
+Definition rf_bad (r : rfst) : bool := match r with RFPosted (RFrame f) => is_bad f | _ => false end.
+
 Definition EvD (x : dstate) : Prop :=
-  existsb is_bad (inflight x) = true \/ rf x = RFPosted (RFrame KBad) \/ werr x = true \/ left_loop (rd x).
+  existsb is_bad (inflight x) = true \/ rf_bad (rf x) = true \/ werr x = true \/ left_loop (rd x).
 
 Definition Ev (s : state) : Prop :=
   closing s = true \/ conn_open (cli s) = false \/ conn_open (srv s) = false \/ done s = true
@@ -98,7 +100,7 @@ Ltac step_cases s l Hs :=
   destruct l; repeat match goal with t : side |- _ => destruct t end;
   cbn [step getd setd with_rd with_rd_rf exit_failed set_trig set_remote remote
        dc ds main cli srv wbroken_c wbroken_s sc_closed cc_closed closing done trig dleak_c dleak_s dleak set_dleak
-       rd wr wfailed werr chan queued rf inflight other cfg_fixed fix_close fix_done fix_abort werr_buffered credit_unlocks
+       rd wr wfailed werr chan queued rf inflight other cfg_fixed fix_close fix_done fix_abort werr_buffered credit_unlocks data_errs_propagate
        andb negb] in Hs;
   repeat bm; try discriminate Hs; inversion Hs; subst; clear Hs;
   repeat match goal with t : side |- _ => destruct t end;
@@ -177,7 +179,7 @@ Ltac ev_tac :=
   unfold Ev, EvD, left_loop in *; red_state;
   repeat match goal with f : kind |- _ => destruct f end;
   try rewrite !existsb_snoc;
-  simpl existsb in *; simpl is_bad in *;
+  simpl existsb in *; simpl rf_bad in *; simpl is_bad in *;
   rewrite ?orb_false_r, ?orb_true_r in *;
   intuition (try reflexivity; try congruence).
 
